@@ -15,6 +15,10 @@ RULE = ("single lines enumerated exhaustively over the 15-class alphabet up to t
         "random texts up to 40 lines and nesting depth 6 (closers and openers also spelled with blanks inside the brackets); "
         "bracket spellings: every text w of up to 3 (thorough 4) characters over the alphabet + 'A' as closer '</w>' behind open "
         "sections, as opener '<w>' before a closer and as '<w/>', real parser vs model; "
+        "section objects: texts ending inside 1-3 (thorough 4) open sections whose own keys equal / differ from the top level's and "
+        "each other's (with their closed controls), the texts of up to 2 lines and the random texts, parsed with recording contexts "
+        "whose section objects are lists / dicts of their own keys (== by value), all equal, or one shared object, and by "
+        "schemaless.loadConfigFile (tree compared), vs model and vs the construction; "
         "non-trivial = not blank/comment only; distinct by text")
 
 SHAPES = ["", "# c", "<a>", "<a n>", "<A  N >", "<a/>", "<a n/>", "<a/ >", "</a>", "</A >", "</b>", "<b>", "k v", "k", "k  v  w ",
@@ -25,6 +29,7 @@ SHAPES = ["", "# c", "<a>", "<a n>", "<A  N >", "<a/>", "<a n/>", "<a/ >", "</a>
 
 
 class RecSection:
+    """a section object of the recording context: an opaque object (compared by identity), as the loader's matchers are"""
     def __init__(self, log):
         self.log = log
 
@@ -32,13 +37,58 @@ class RecSection:
         self.log.append(["value", key, value, position[0]])
 
 
+class ListSection(list):
+    """a section object that IS the list of its own (key, value) pairs: two sections are == whenever they hold the same pairs"""
+    def __init__(self, log):
+        list.__init__(self)
+        self.log = log
+
+    def addValue(self, key, value, position):
+        self.append((key, value))
+        self.log.append(["value", key, value, position[0]])
+
+
+class DictSection(dict):
+    """a section object that IS the mapping key -> values of its own keys (what schemaless.Section is): == by contents, whatever the
+    type, the name and the subsections are"""
+    def __init__(self, log):
+        dict.__init__(self)
+        self.log = log
+
+    def addValue(self, key, value, position):
+        self.setdefault(key, []).append(value)
+        self.log.append(["value", key, value, position[0]])
+
+
+class EqualSection(RecSection):
+    """section objects that all compare equal (a context may hand out anything: the parser only passes them back)"""
+    def __eq__(self, other):
+        return isinstance(other, EqualSection)
+
+    def __ne__(self, other):
+        return not isinstance(other, EqualSection)
+
+    __hash__ = None
+
+
+# what a context may hand to the parser as "the section": the parser's contract treats it as opaque (it only passes it back to
+# the context and calls addValue), so which sections are open must never be read off these objects
+SECTION_KINDS = {"fresh": RecSection, "list": ListSection, "dict": DictSection, "equal": EqualSection, "shared": RecSection}
+
+
 class RecContext:
-    def __init__(self):
+    def __init__(self, kind="fresh"):
         self.log = []
+        self.kind = kind
+
+    def top(self):
+        return SECTION_KINDS[self.kind](self.log)
 
     def startSection(self, section, type_, name):
         self.log.append(["start", type_, name])
-        return RecSection(self.log)
+        if self.kind == "shared":
+            return section              # one object stands for every section (a flat recorder)
+        return SECTION_KINDS[self.kind](self.log)
 
     def endSection(self, section, type_, name, newsect):
         self.log.append(["stop", type_, name])
@@ -50,20 +100,45 @@ class RecContext:
         raise NotImplementedError("includes are not supported")
 
 
-def real_rec(lines, url=None):
+def real_rec(lines, url=None, kind="fresh"):
     import ZConfig
     from ZConfig.cfgparser import ZConfigParser
     from ZConfig.schemaless import Resource
-    ctx = RecContext()
+    ctx = RecContext(kind)
     p = ZConfigParser(Resource(io.StringIO("".join(l + "\n" for l in lines)), url), ctx)
     try:
-        p.parse(RecSection(ctx.log))
+        p.parse(ctx.top())
     except ZConfig.ConfigurationError as e:
         from ..cfgrun import classify_exc
         return classify_exc(e)[:3]
     except Exception as e:
         return ["internal", type(e).__name__]
     return ["ok", ctx.log]
+
+
+def sec_struct(s):
+    return {"type": s.type, "name": s.name or None, "data": {k: list(v) for k, v in s.items()},
+            "sections": [sec_struct(x) for x in s.sections], "imports": list(getattr(s, "imports", ()))}
+
+
+def model_struct(m, imports=None):
+    # (sec "type" name ((k (v…))…) (subs…))
+    return {"type": m[1], "name": None if m[2] == "none" else m[2], "data": {k: list(vs) for k, vs in m[3]},
+            "sections": [model_struct(x) for x in m[4]], "imports": list(imports) if imports is not None else []}
+
+
+def real_schemaless(lines, url=None):
+    """schemaless.loadConfigFile: the nested mapping of an accepted text, else the outcome class"""
+    import ZConfig
+    from ZConfig import schemaless
+    try:
+        top = schemaless.loadConfigFile(io.StringIO("".join(l + "\n" for l in lines)), url)
+    except ZConfig.ConfigurationError as e:
+        from ..cfgrun import classify_exc
+        return classify_exc(e)[:3]
+    except Exception as e:
+        return ["internal", type(e).__name__]
+    return ["ok", sec_struct(top)]
 
 
 def real_rec_path(lines):
@@ -184,6 +259,92 @@ def random_text(rng):
     return lines
 
 
+# own contents of a section (or of the top level) in the texts below; "k  v " is the pair of "k v" spelled differently, the
+# closed subsections and the %import add nothing to the section's own keys
+CONTENTS = [[], ["k v"], ["k v", "k w"], ["k  v "], ["<c/>"], ["<a>", "k v", "</a>"], ["%import p"]]
+CONTENTS_DEEP = [[], ["k v"], ["<a>", "</a>"]]
+OPENERS = [["<a>", "<b>", "<c>", "<d>"], ["<a>", "<a n>", "<A  N >", "<a>"], ["<s n>", "<S>", "<b x>", "<s n>"]]
+
+
+def _closer_of(opener):
+    return "</" + opener[1:-1].split()[0] + ">"
+
+
+def open_section_texts(thorough=False):
+    """texts that end with d - c of d nested sections still open (c = d: all closed, the accepted controls), for every choice of
+    the own contents of the top level and of each section from a small pool, so that the open sections hold the same keys and
+    values as the top level (most simply none at all), the same as each other, or different ones; lines after a closer too.
+    Yields (lines, sections left open, the innermost open section's own keys equal the top level's)."""
+    out = []
+    for d in range(1, 5 if thorough else 4):
+        pool = CONTENTS if (d <= 2 or (thorough and d == 3)) else CONTENTS_DEEP
+        for ops in OPENERS:
+            for conts in itertools.product(pool, repeat=d + 1):
+                for c in range(d + 1):
+                    for after in ([], ["k v"]) if c else ([],):
+                        lines = list(conts[0])
+                        for lvl in range(d):
+                            lines += [ops[lvl]] + list(conts[lvl + 1])
+                        for lvl in range(d - 1, d - 1 - c, -1):
+                            lines.append(_closer_of(ops[lvl]))
+                        lines += after
+                        own = [[l for l in x if l[:1] == "k"] for x in conts]
+                        if c:
+                            own[d - c] = own[d - c] + after
+                        same = [" ".join(l.split()) for l in own[d - c]] == [" ".join(l.split()) for l in own[0]]
+                        out.append((lines, d - c, bool(d - c) and same))
+    return out
+
+
+def compare_contexts(ctx, tagged, stream):
+    """which sections are open is the parser's own business (its open-section stack): the verdict and the events must be the same
+    whatever objects the context hands out as sections - opaque ones, lists or dicts of the section's own keys (== by value, as
+    schemaless.Section), objects that are all equal, one shared object - and schemaless.loadConfigFile must accept exactly the
+    nested texts and build their tree.  Oracle: the model of the grammar (parse-rec / schemaless; C03_accept_iff_nested), and for
+    the constructed texts the construction itself (an unclosed section is a syntax error, a fully closed text is accepted)."""
+    texts = [t for t, _, _ in tagged]
+    recs = core.driver_batch([[Atom("parse-rec"), None, t] for t in texts]) if ctx.driver_ok else None
+    sls = core.driver_batch([[Atom("schemaless"), None, t] for t in texts]) if ctx.driver_ok else None
+    kinds = [k for k in SECTION_KINDS if k != "fresh"]
+    seen = set()
+
+    def violate(what, replay, signature):
+        ctx.count(stream + ":violations")
+        if signature not in seen:           # the first (smallest) text of each class is the replay
+            seen.add(signature)
+            ctx.violate(what, replay, signature=signature)
+
+    for i, (t, nopen, same) in enumerate(tagged):
+        ctx.nontriv(tuple(t))
+        if nopen:
+            ctx.count(stream + ":left-open")
+            if same:
+                ctx.count(stream + ":left-open-with-the-keys-of-the-top-level")
+        outcomes = [(k, real_rec(t, None, k)) for k in kinds] + [("schemaless", real_schemaless(t))]
+        for kind, r in outcomes:
+            ctx.evaluations += 1
+            ctx.count("%s:%s:%s" % (stream, kind, r[0] if r[0] != "cfg" else r[1]))
+            if nopen is not None and (r[0] == "ok") != (nopen == 0) and r[0] in ("ok", "cfg"):
+                how = kind if kind == "schemaless" else "a recording context with %r section objects" % kind
+                violate("text %r %s but the parser, driven with %s, gives %r" %
+                        (t, "leaves %d section(s) open" % nopen if nopen else "closes every section it opens", how, r[:3] if r[0] != "ok" else "accepted"),
+                        {"lines": t, "context": kind, "sections_left_open": nopen, "impl": r, "expected": "ConfigurationSyntaxError" if nopen else "accepted"},
+                        "C03:%s:%s:%s" % (stream, kind, "unclosed-accepted" if nopen else "nested-rejected"))
+                continue
+            if not ctx.driver_ok:
+                continue
+            if kind == "schemaless":
+                a = sls[i]
+                m = ["ok", model_struct(a[1], a[2])] if a[0] == "ok" else canon_rec(a)
+            else:
+                m = canon_rec(recs[i])
+            if m != r:
+                ctx.disagree(stream + ":" + kind, t, r, m)
+                if (m[0] == "ok") != (r[0] == "ok") or r[0] == "ok":
+                    violate("text %r: the parser driven with %s gives %r, the grammar gives %r" % (t, kind, r, m),
+                            {"lines": t, "context": kind, "impl": r, "model": m}, "C03:%s:%s:%s-vs-%s" % (stream, kind, r[0], m[0]))
+
+
 def compare_texts(ctx, texts, stream):
     """the real parser with a recording context against the model of the grammar (= the documented grammar: C03_classify_eq_spec,
     C03_accept_iff_nested) on whole texts: accepted or not, and the events of an accepted text"""
@@ -275,6 +436,12 @@ def run(ctx):
     # 2b. bracket spellings: everything that can stand between '</' and '>' while sections are open, between '<' and '>' or '/>'
     spell = bracket_spelling_texts(4 if ctx.thorough() else 3)
     compare_texts(ctx, spell, "bracket")
+    # 2c. the section objects are the context's: texts that end inside open sections (and their closed controls), the texts of up
+    # to 2 lines and the random texts, through recording contexts with other kinds of section objects and through schemaless
+    opens = open_section_texts(ctx.thorough())
+    compare_contexts(ctx, opens, "open-sections")
+    nshort = len(SHAPES) + len(SHAPES) ** 2
+    compare_contexts(ctx, [(t, None, False) for t in texts[:nshort] + texts[-(20000 if ctx.thorough() else 2500):] + spell[::7]], "contexts")
     # 3. the same texts read from a FILE the way a path or URL is read: line by line means '\n' by '\n'
     exotic = [t for t in texts if any(c in l for l in t for c in "\x0b\x0c\x1c\x1d\x1e\x85\u2028\u2029\r")]
     sample = exotic[:300] + texts[:: max(1, len(texts) // 300)] + spell[:: max(1, len(spell) // 100)] + [["k " + "v" * 5000], ["<a>", "    k " + "w" * 9000 + " tail", "</a>"],
@@ -289,10 +456,12 @@ def run(ctx):
             break
     ctx.cov["exhaustive"] = True
     ctx.cov["enumeration"] = {"alphabet": ALPHA, "maxlen": maxlen, "single_lines": len(singles), "texts": len(texts), "shapes": len(SHAPES),
-                              "bracket_spellings": len(spell), "bracket_alphabet": HDR_ALPHA}
+                              "bracket_spellings": len(spell), "bracket_alphabet": HDR_ALPHA,
+                              "open_section_texts": len(opens), "section_object_kinds": sorted(SECTION_KINDS) + ["schemaless.Section"]}
     ctx.sample({"line": singles[len(singles) // 2], "impl": real_rec([singles[len(singles) // 2]])})
     ctx.sample({"text": texts[-1], "impl": real_rec(texts[-1])})
     ctx.sample({"bracket-spelling": spell[len(spell) // 2], "impl": real_rec(spell[len(spell) // 2])})
+    ctx.sample({"open-sections": opens[len(opens) // 2][0], "left_open": opens[len(opens) // 2][1], "schemaless": real_schemaless(opens[len(opens) // 2][0])[:3]})
     return core.finish(ctx, obligations, discharged, names, RULE,
                        "lake build ZCV.Props.C03 && lake env lean ZCV/Audit/C03.lean",
                        ["lines are split at '\\n' only (StringIO.readline)", "substitution of values is C04"])
